@@ -34,6 +34,19 @@ type Gen struct {
 	// light bookkeeping so that conditional commands sometimes match
 	lastKVIdx map[string]uint64
 	Weights   map[string]int
+	nsess     int // sessions are minted with fresh ids, as the Session endpoint does
+}
+
+// recentSess picks one of the last few minted session ids (or a never-minted one)
+func (g *Gen) recentSess() string {
+	if g.nsess == 0 || g.chance(8) {
+		return "s0"
+	}
+	k := g.nsess - g.R.Intn(4)
+	if k < 1 {
+		k = 1
+	}
+	return fmt.Sprintf("s%d", k)
 }
 
 func NewGen(seed int64) *Gen {
@@ -75,7 +88,7 @@ func (g *Gen) someIdx() uint64 {
 func (g *Gen) nodeService(peer string) *structs.NodeService {
 	name := g.pick(gSvcNames)
 	id := name + fmt.Sprint(1+g.R.Intn(2))
-	ns := &structs.NodeService{ID: id, Service: name, Port: 1000 + g.R.Intn(3), Tags: []string{g.pick([]string{"v1", "v2", "primary"})},
+	ns := &structs.NodeService{ID: id, Service: name, Port: 1000 + g.R.Intn(3), Tags: []string{[]string{"v1", "v2", "primary"}[len(id)%3+0*g.R.Intn(3)]},
 		Meta: map[string]string{"m": g.pick(gVals)}, PeerName: peer}
 	switch g.R.Intn(12) {
 	case 0, 1:
@@ -190,7 +203,7 @@ func (g *Gen) kvs() (structs.MessageType, any, string) {
 			d.ModifyIndex = g.lastKVIdx[k]
 		}
 	case "lock", "unlock":
-		d.Session = UUID(g.pick(gSess))
+		d.Session = UUID(g.recentSess())
 	case "delete-tree":
 		d.Key = g.pick(gPrefixes)
 	}
@@ -204,12 +217,13 @@ func (g *Gen) session() (structs.MessageType, any, string) {
 	req := &structs.SessionRequest{Datacenter: "dc1"}
 	if g.chance(3) {
 		req.Op = structs.SessionDestroy
-		req.Session = structs.Session{ID: UUID(g.pick(gSess))}
+		req.Session = structs.Session{ID: UUID(g.recentSess())}
 		return structs.SessionRequestType, req, "session destroy"
 	}
 	req.Op = structs.SessionCreate
 	// a fresh id per create, as the endpoint does; drawn from the generator's own stream
-	id := fmt.Sprintf("s%d", 1+g.R.Intn(4))
+	g.nsess++
+	id := fmt.Sprintf("s%d", g.nsess)
 	req.Session = structs.Session{ID: UUID(id), Node: g.pick(gNodes), Name: g.pick([]string{"", "sn", "sm"}),
 		Behavior: structs.SessionBehavior(g.pick([]string{"release", "delete", ""})), TTL: g.pick([]string{"", "30s"}),
 		LockDelay: time.Duration(g.R.Intn(2)) * 15 * time.Second}
@@ -241,7 +255,7 @@ func (g *Gen) txn() (structs.MessageType, any, string) {
 			c.ModifyIndex = g.someIdx()
 			op.Check = &structs.TxnCheckOp{Verb: api.CheckOp(g.pick([]string{"set", "cas", "get", "delete", "delete-cas"})), Check: c}
 		case 3:
-			op.Session = &structs.TxnSessionOp{Verb: api.SessionDelete, Session: structs.Session{ID: UUID(g.pick(gSess))}}
+			op.Session = &structs.TxnSessionOp{Verb: api.SessionDelete, Session: structs.Session{ID: UUID(g.recentSess())}}
 		default:
 			k := g.pick(gKeys)
 			verb := g.pick([]string{"set", "cas", "delete", "delete-cas", "delete-tree", "lock", "unlock", "get", "get-tree", "get-or-empty",
@@ -254,7 +268,7 @@ func (g *Gen) txn() (structs.MessageType, any, string) {
 					d.ModifyIndex = g.lastKVIdx[k]
 				}
 			case "lock", "unlock", "check-session":
-				d.Session = UUID(g.pick(gSess))
+				d.Session = UUID(g.recentSess())
 			case "delete-tree", "get-tree":
 				d.Key = g.pick(gPrefixes)
 			}
@@ -287,7 +301,7 @@ func (g *Gen) pq() (structs.MessageType, any, string) {
 	req.Query.Name = g.pick([]string{"", "", "qn1", "qn2"})
 	req.Query.Service = structs.ServiceQuery{Service: g.pick(gSvcNames), OnlyPassing: g.chance(2)}
 	if g.chance(3) {
-		req.Query.Session = UUID(g.pick(gSess))
+		req.Query.Session = UUID(g.recentSess())
 	}
 	if g.chance(5) {
 		req.Query.Template = structs.QueryTemplateOptions{Type: structs.QueryTemplateTypeNamePrefixMatch}
